@@ -21,9 +21,19 @@ What is generated
                         certChunks : one line per database entry, in database order:
                                        "j1:k1 j2:k2 ..."        p^n - 1 = prod (prime at table line j_i)^k_i
                                        ""                       if p^n >= 2^64 (no primitivity claim)
+                        rabinChunks: one line per database entry, in database order:
+                                       "r1:v0,v1,..,v(n-1) r2:..."  if p^n >= 2^64 and n <= rabinMaxDeg: for every prime
+                                                                r | n the inverse v of x^(p^(n/r)) - x in F_p[x]/(f)
+                                                                (Rabin's irreducibility test)
+                                       ""                       otherwise
+                      (rabinMaxDeg is read from Certs/Checker.lean)
   Certs/SweepNN.lean  NN = 00..STRIDES-1: `native_decide` evaluation of the checker on the entries with
                       index = NN mod STRIDES (so that `lake build` runs them in parallel)
   Certs/All.lean      imports all sweeps, collects them into one statement per checker
+
+If the NUMBER of entries changes, also update the literal 35357 in Certs/TabCheck.lean (db_shape_ok) and
+Props/C04.lean (db_shape); a changed entry, a new prime factor etc. needs nothing but re-running this script.
+Measured: this script 15 s; clean `lake build Algobra.Props.C04` 34 CPU-minutes (about 2-3 min on 16 idle cores).
 
 Hand-written, NOT touched by this script: Certs/Checker.lean (the checkers), Certs/Inst.lean (instantiation
 with the data), Certs/TabCheck.lean (prime table check).
@@ -32,7 +42,9 @@ import os
 import re
 import sys
 
-from sympy import factorint, primitive_root
+import numpy as np
+from sympy import ZZ, factorint, primefactors, primitive_root
+from sympy.polys.galoistools import gf_gcdex
 
 GO_FILE = '/repo/finitefield/conway/cpimport.go'
 OUT_DIR = '/verif/lean/Algobra/Certs'
@@ -81,6 +93,64 @@ def lean_chunks(name, lines):
     return '\n'.join(s)
 
 
+def rabin_max_deg():
+    src = open(os.path.join(OUT_DIR, 'Checker.lean'), encoding='utf-8').read()
+    m = re.search(r'def rabinMaxDeg : Nat := (\d+)', src)
+    if not m:
+        sys.exit('gen_certs: cannot find rabinMaxDeg in Certs/Checker.lean')
+    return int(m.group(1))
+
+
+def rabin_cert(p, n, cs):
+    """for every prime r | n the inverse of x^(p^(n/r)) - x modulo f (coefficients low first)"""
+    negf = np.array([(-c) % p for c in cs[:n]], dtype=np.int64)
+
+    def mulmod(a, b):
+        c = np.convolve(a, b) % p
+        for i in range(2 * n - 2, n - 1, -1):
+            if c[i]:
+                c[i - n:i] = (c[i - n:i] + c[i] * negf) % p
+        return c[:n].copy()
+
+    one = np.zeros(n, dtype=np.int64)
+    one[0] = 1
+    x = np.zeros(n, dtype=np.int64)
+    x[1] = 1
+    # x^p by square and multiply
+    xp = one
+    for bit in bin(p)[2:]:
+        xp = mulmod(xp, xp)
+        if bit == '1':
+            xp = mulmod(xp, x)
+    # matrix of the Frobenius map y -> y^p (columns x^(i p))
+    M = np.zeros((n, n), dtype=np.int64)
+    col = one
+    for i in range(n):
+        M[:, i] = col
+        col = mulmod(col, xp)
+    need = {n // r: r for r in primefactors(n)}
+    y = x
+    out = []
+    for k in range(1, n + 1):
+        y = M.dot(y) % p
+        if k in need:
+            u = (y - x) % p
+            uh = [int(t) for t in u[::-1]]
+            while uh and uh[0] == 0:
+                uh.pop(0)
+            fh = [int(c) % p for c in cs[::-1]]
+            s, t, h = gf_gcdex(uh, fh, p, ZZ)
+            if h != [1]:
+                sys.exit('gen_certs: entry (%d,%d) fails Rabin\'s test (gcd)' % (p, n))
+            v = [int(c) % p for c in s[::-1]]
+            v += [0] * (n - len(v))
+            out.append((need[k], v))
+    if not np.array_equal(y, x):
+        sys.exit('gen_certs: entry (%d,%d) fails Rabin\'s test (x^(p^n) != x)' % (p, n))
+    out.sort()
+    return ' '.join('%d:%s' % (r, ','.join(map(str, v))) for r, v in out)
+
+
 def main():
     ents = read_entries()
     print('entries:', len(ents))
@@ -122,6 +192,16 @@ def main():
             a, f = pratt[q]
             tab_lines.append(('%d %d %s' % (q, a, pairs(f))).strip())
     cert_lines = [pairs(facs[i]) if i in facs else '' for i in range(len(ents))]
+    maxdeg = rabin_max_deg()
+    rabin_lines = []
+    nr = 0
+    for i, (p, n, cs) in enumerate(ents):
+        if i in facs or n > maxdeg:
+            rabin_lines.append('')
+        else:
+            rabin_lines.append(rabin_cert(p, n, cs))
+            nr += 1
+    print('rabin certificates:', nr, '(degree <= %d)' % maxdeg)
 
     os.makedirs(OUT_DIR, exist_ok=True)
     with open(os.path.join(OUT_DIR, 'Data.lean'), 'w') as fh:
@@ -130,6 +210,8 @@ def main():
         fh.write(lean_chunks('tab', tab_lines))
         fh.write('\n')
         fh.write(lean_chunks('cert', cert_lines))
+        fh.write('\n')
+        fh.write(lean_chunks('rabin', rabin_lines))
         fh.write('\nend Algobra.C04Check.Data\n')
 
     for k in range(STRIDES):
